@@ -171,29 +171,35 @@ static int execute(const unsigned char *prefix, int nprefix, struct sched_trace 
     memcpy(out, SHTR, sizeof *out);
     if (SHTR->switches) vh_nontrivial();
     int bad = 0;
-    if (WIFEXITED(st) && WEXITSTATUS(st) == 70) { vh_violation("deadlock", "no thread can run: every unfinished thread waits for a lock (after %d scheduling points)", SHTR->npoints); bad = 1; }
-    else if (WIFEXITED(st) && (WEXITSTATUS(st) == 71 || WEXITSTATUS(st) == 72 || WEXITSTATUS(st) == 73 || WEXITSTATUS(st) == 74)) { fprintf(stderr, "scheduler error %d (divergence/overflow) replaying a prefix of %d choices\n", WEXITSTATUS(st), nprefix); exit(2); }
-    else if (WIFSIGNALED(st) || (WIFEXITED(st) && WEXITSTATUS(st))) {
-        char cls[96], det[1600]; vh_classify_crash(errfile, WIFSIGNALED(st) ? WTERMSIG(st) : 0, cls, sizeof cls, det, sizeof det);
-        vh_violation(cls, "%s", det); bad = 1;
-    } else {
-        /* ThreadSanitizer keeps going after a report: look at what the execution printed */
+    /* ThreadSanitizer keeps going after a report (and then exits with 66): look at what the execution printed first */
+    {
         FILE *f = fopen(errfile, "r");
         if (f) {
-            static char buf[32768]; size_t n = fread(buf, 1, sizeof buf - 1, f); buf[n] = 0; fclose(f);
+            static char buf[65536]; size_t n = fread(buf, 1, sizeof buf - 1, f); buf[n] = 0; fclose(f);
             char *w = strstr(buf, "WARNING: ThreadSanitizer:");
             if (w) {
-                char kind[64] = "race"; sscanf(w, "WARNING: ThreadSanitizer: %63[^(\n]", kind); for (char *q = kind; *q; q++) if (*q == ' ') *q = '-';
-                size_t kl = strlen(kind); while (kl && kind[kl - 1] == '-') kind[--kl] = 0;
-                /* first frame inside the repository */
-                char fn[96] = "?"; char *fr = strstr(w, "#0 "); if (fr) sscanf(fr, "#0 %95s", fn);
+                char kind[64] = "race", fn[96] = "?";
+                char *su = strstr(w, "SUMMARY: ThreadSanitizer: ");
+                if (su) {
+                    su += 26; size_t i = 0; while (su[i] && su[i] != '/' && su[i] != '(' && su[i] != '\n' && i < 63) { kind[i] = su[i] == ' ' ? '-' : su[i]; i++; } kind[i] = 0;
+                    while (i && kind[i - 1] == '-') kind[--i] = 0;
+                    char *in = strstr(su, " in "); if (in) sscanf(in + 4, "%95s", fn);
+                }
                 char site[200]; snprintf(site, sizeof site, "tsan-%s:%s", kind, fn);
                 char det[1500]; size_t o = 0; for (char *q = w; *q && o + 2 < sizeof det && o < 1400; q++) det[o++] = (*q == '\n' || *q == '\t') ? ' ' : *q; det[o] = 0;
                 vh_violation(site, "%s", det); bad = 1;
             }
         }
-        if (!bad && !SHTR->finished) { vh_violation("incomplete", "execution ended without completing its checks"); bad = 1; }
-        if (!bad && have_golden && SHTR->outcome_hash != golden_outcome) { vh_violation("result-differs-from-sequential", "per-thread results (return codes and output bytes) differ from the sequential execution"); bad = 1; }
+    }
+    if (bad) { }
+    else if (WIFEXITED(st) && WEXITSTATUS(st) == 70) { vh_violation("deadlock", "no thread can run: every unfinished thread waits for a lock (after %d scheduling points)", SHTR->npoints); bad = 1; }
+    else if (WIFEXITED(st) && (WEXITSTATUS(st) == 71 || WEXITSTATUS(st) == 72 || WEXITSTATUS(st) == 73 || WEXITSTATUS(st) == 74)) { fprintf(stderr, "scheduler error %d (divergence/overflow) replaying a prefix of %d choices\n", WEXITSTATUS(st), nprefix); exit(2); }
+    else if (WIFSIGNALED(st) || (WIFEXITED(st) && WEXITSTATUS(st))) {
+        char cls[96], det[1600]; vh_classify_crash(errfile, WIFSIGNALED(st) ? WTERMSIG(st) : 0, cls, sizeof cls, det, sizeof det);
+        vh_violation(cls, "%s", det); bad = 1;
+    } else {
+        if (!SHTR->finished) { vh_violation("incomplete", "execution ended without completing its checks"); bad = 1; }
+        else if (have_golden && SHTR->outcome_hash != golden_outcome) { vh_violation("result-differs-from-sequential", "per-thread results (return codes and output bytes) differ from the sequential execution"); bad = 1; }
     }
     if (bad) violating_execs++;
     return bad;
